@@ -147,6 +147,9 @@ func c16Case(tier string, id int, r *rand.Rand, o *srchOut) {
 	}
 	modelCases := 0
 	modelMax := 3
+	if su.sc.tableMem >= 0 { // the table is where a cancelled search can leave damage: more replayed cancellation points
+		modelMax = 7
+	}
 	modelAt := map[int]bool{}
 	if total > 0 {
 		for j := 0; j < modelMax; j++ {
@@ -179,6 +182,9 @@ func c16Case(tier string, id int, r *rand.Rand, o *srchOut) {
 		if !srchSamePV(rr.pv, want.pv) || rr.v != want.v || rr.st.Depth != want.st.Depth {
 			o.printf("ORACLE-FAIL cancel-alters-result | %s %s | pv %s value %d depth %d canceled %v | the uninterrupted search limited to depth %d returns pv %s value %d depth %d",
 				cid, desc, encMoves(rr.pv), rr.v, rr.st.Depth, rr.st.Canceled, dstar, encMoves(want.pv), want.v, want.st.Depth)
+		}
+		if rr.tableWrittenAfterCancel {
+			o.printf("ORACLE-FAIL cancel-writes-table | %s %s | the transposition table changed after the cancel flag was set | a cancelled search leaves no trace of the part that is discarded (ttPut refuses writes once cancelled)", cid, desc)
 		}
 		if want.st.Depth == 0 && len(want.pv) == 0 {
 			o.stat("cancel_before_any_iteration", 1)
@@ -350,7 +356,7 @@ func runC16(c *ctx) {
 			return
 		}
 	}
-	nPos, nConc := 60, 6
+	nPos, nConc := 110, 10
 	if tier == "thorough" {
 		nPos, nConc = 400, 60
 	}
